@@ -227,6 +227,24 @@ def unit_split_pairing():
                 ok = len(dst) >= 1 and dst[0] in want and want[dst[0]] in src
                 r.add("%s.loop%d.lines_of_%s_come_from_%s" % (q.split("::")[-1], nloops, dst[0] if dst else "?", want.get(dst[0], "?") if dst else "?"),
                       DISCHARGED if ok else FAILED, "ast-scan", 0, "stream constructed from %s; pushed into %s" % (src or "a local/temporary (not the member string)", dst), kind="structure")
+                # the vector is emptied on EVERY path into the loop: `this->V.clear();` is a statement of the loop's own block or of a block around it
+                # (so not inside a branch the loop is not in), before the loop
+                if dst:
+                    def is_clear(st_):
+                        st_ = A.strip(st_) if hasattr(A, "strip") else st_
+                        return st_.get("kind") == "CXXMemberCallExpr" and st_["inner"][0].get("kind") == "MemberExpr" and st_["inner"][0].get("name") == "clear" and dst[0] in members(st_["inner"][0])
+                    w_off = (w.get("range", {}).get("begin", {}) or {}).get("offset", -1)
+                    cleared = False
+                    for b2 in [x for x in A.walk(fn) if x.get("kind") == "CompoundStmt"]:
+                        if not any(y is w for y in A.walk(b2)):
+                            continue
+                        for st_ in b2.get("inner", []):
+                            if any(y is w for y in A.walk(st_)):
+                                break
+                            if is_clear(st_):
+                                cleared = True
+                    r.add("%s.loop%d.%s_emptied_on_every_path_before_it_is_refilled" % (q.split("::")[-1], nloops, dst[0]), DISCHARGED if cleared else FAILED, "ast-scan", 0,
+                          "" if cleared else "no unconditional `%s.clear()` ahead of the splitting loop: old lines survive next to the new ones" % dst[0], kind="structure")
     r.add("reach.loops_found", DISCHARGED if nloops >= 5 else UNDECIDED, "ast-scan", 0, "%d line-splitting loops" % nloops, kind="vacuity")
     r.sha = core.sha256_text("".join(shas))
     r.kind = "structural"
